@@ -6,7 +6,7 @@
 From Coq Require Import ZArith QArith Qminmax List Bool String Ascii PrimFloat.
 From V Require Import Generated.CalTrackTables Model.CalTrack Proofs.CalTrackProofs Proofs.CalTrackTableProofs.
 (* the comparison helpers of the correspondence are built (type-checked) together with the property *)
-From V Require Model.CalTrackRun.
+From V Require Model.CalTrackRun Model.CalTrackFitRun.
 Import ListNotations.
 Local Open Scope string_scope.
 
@@ -289,3 +289,136 @@ Proof. vm_compute. reflexivity. Qed.
    an Example rather than a Theorem: its proof computes with primitive floats, which Print Assumptions lists *)
 Example C18_ex_candidate_endpoints_same_numbers : map Q2F default_bins = default_bins_f.
 Proof. exact default_bins_same_l. Qed.
+
+(* ==================================================================================================================== *)
+(* Extension: which candidate endpoints are kept (_fit_temperature_bins / fit_temperature_bins) and the hour-of-week  *)
+(* occupancy rule (_estimate_hour_of_week_occupancy). Model: Model/CalTrackFit.v; lemmas: Proofs/CalTrackFitProofs.v *)
+(* (for arbitrary temperatures, candidates, minimum counts, thresholds, residual tables) and                           *)
+(* Proofs/CalTrackFitTableProofs.v (regenerated candidates). Kept at the end of the file.                               *)
+(* ==================================================================================================================== *)
+From V Require Import Model.CalTrackFit Proofs.CalTrackFitProofs.
+
+(* ---- kept endpoints -------------------------------------------------------------------------------------------------- *)
+(* the kept endpoints are a sub-list of the candidates, in candidate order *)
+Theorem C18_fit_bins_sublist : forall temps minc e, exists flags, fit_bins temps minc e = select flags e.
+Proof. exact fit_bins_is_select. Qed.
+Print Assumptions C18_fit_bins_sublist.
+
+Theorem C18_fit_bins_subset : forall temps minc e x, In x (fit_bins temps minc e) -> In x e.
+Proof. exact fit_bins_subset. Qed.
+Print Assumptions C18_fit_bins_subset.
+
+Theorem C18_fit_bins_increasing : forall temps minc e, increasing e -> increasing (fit_bins temps minc e).
+Proof. exact fit_bins_increasing. Qed.
+Print Assumptions C18_fit_bins_increasing.
+
+(* every kept bin holds at least min_temperature_count temperatures -- or no endpoint is left: the single bin
+   (-inf, +inf) is the documented exception (`if len(temp_summary) == 1: return set()`), it is kept whatever it holds *)
+Theorem C18_fit_bins_min_count : forall temps minc e,
+  fit_bins temps minc e = [] \/ Forall (fun c => (minc <= c)%nat) (bin_counts temps (fit_bins temps minc e)).
+Proof. exact fit_bins_min_count. Qed.
+Print Assumptions C18_fit_bins_min_count.
+
+(* the loop ends only when _find_endpoints_to_remove finds nothing *)
+Theorem C18_fit_bins_stable : forall temps minc e, removals temps minc (fit_bins temps minc e) = [].
+Proof. exact fit_bins_stable. Qed.
+Print Assumptions C18_fit_bins_stable.
+
+(* nothing is merged without need: a list whose bins all hold the minimum is returned unchanged *)
+Theorem C18_fit_bins_keeps_full_lists : forall temps minc e,
+  Forall (fun c => (minc <= c)%nat) (bin_counts temps e) -> fit_bins temps minc e = e.
+Proof. exact fit_bins_fixpoint. Qed.
+Print Assumptions C18_fit_bins_keeps_full_lists.
+
+Theorem C18_bin_counts_length : forall temps e, List.length (bin_counts temps e) = S (List.length e).
+Proof. exact bin_counts_length. Qed.
+Print Assumptions C18_bin_counts_length.
+
+(* flag column and back, for any strictly increasing candidate list *)
+Theorem C18_fit_flags_select : forall temps cands minc, normalize cands = cands -> strictly_increasing cands ->
+  select (fit_flags temps cands minc) cands = fit_temperature_bins_list temps cands minc.
+Proof. exact fit_flags_select. Qed.
+Print Assumptions C18_fit_flags_select.
+
+(* ---- occupancy rule ---------------------------------------------------------------------------------------------------- *)
+(* totality: the lookup has 168 entries and, with data, each is a boolean *)
+Theorem C18_occupancy_lookup_length : forall no_data thr rows, List.length (occupancy_lookup no_data thr rows) = 168%nat.
+Proof. exact occupancy_length. Qed.
+Print Assumptions C18_occupancy_lookup_length.
+
+Theorem C18_occupancy_lookup_total : forall thr rows h, (0 <= h < 168)%Z ->
+  nth_error (occupancy_lookup false thr rows) (Z.to_nat h) = Some (Some (occupied_flag thr rows h)).
+Proof. exact occupancy_total. Qed.
+Print Assumptions C18_occupancy_lookup_total.
+
+(* occupied iff the fraction of positive residuals of that hour of the week exceeds the threshold *)
+Theorem C18_occupied_iff_ratio : forall thr rows h, (0 < n_residuals rows h)%nat ->
+  (occupied_flag thr rows h = true <-> (thr < ratio (n_positive rows h) (n_residuals rows h))%Q).
+Proof. exact occupied_iff_ratio. Qed.
+Print Assumptions C18_occupied_iff_ratio.
+
+Theorem C18_ratio_gt_iff : forall thr p n, (0 < n)%nat ->
+  ((thr < ratio p n)%Q <-> (thr * inject_Z (Z.of_nat n) < inject_Z (Z.of_nat p))%Q).
+Proof. exact ratio_gt_iff. Qed.
+Print Assumptions C18_ratio_gt_iff.
+
+(* the cast: an hour of the week without any residual is NaN after the re-index and True after .astype(bool) *)
+Theorem C18_occupied_without_residuals : forall thr rows h, n_residuals rows h = O -> occupied_flag thr rows h = true.
+Proof. exact occupied_without_residuals. Qed.
+Print Assumptions C18_occupied_without_residuals.
+
+(* a segment without a single complete row: all 168 entries are NaN (the lookup is not cast); this is the NaN
+   occupancy of C18_ex_nan_occupancy_keeps_both *)
+Theorem C18_occupancy_no_data_all_nan : forall thr rows h, (0 <= h < 168)%Z ->
+  nth_error (occupancy_lookup true thr rows) (Z.to_nat h) = Some None.
+Proof. exact occupancy_no_data. Qed.
+Print Assumptions C18_occupancy_no_data_all_nan.
+
+(* ---- over the regenerated candidates (these may stop checking when the source changes; they come last) -------- *)
+From V Require Import Proofs.CalTrackFitTableProofs.
+
+Theorem C18_candidates_sorted_distinct : normalize default_bins = default_bins /\ strictly_increasing default_bins.
+Proof. exact (conj candidates_normal_l candidates_strict_l). Qed.
+Print Assumptions C18_candidates_sorted_distinct.
+
+(* the endpoint list a feature processor selects with the keep-flags of fit_temperature_bins is the list
+   _fit_temperature_bins returned; so all bin theorems above hold for it, and its bins hold the minimum count *)
+Theorem C18_fitted_endpoints_are_the_kept_bins : forall temps minc,
+  endpoints_of_flags (fit_flags temps default_bins minc) = fit_temperature_bins_list temps default_bins minc.
+Proof. exact fitted_endpoints_l. Qed.
+Print Assumptions C18_fitted_endpoints_are_the_kept_bins.
+
+Theorem C18_fitted_endpoints_min_count : forall temps minc,
+  let e := endpoints_of_flags (fit_flags temps default_bins minc) in
+  e = [] \/ Forall (fun c => (minc <= c)%nat) (bin_counts temps e).
+Proof. exact fitted_endpoints_min_count_l. Qed.
+Print Assumptions C18_fitted_endpoints_min_count.
+
+(* ---- witnesses ------------------------------------------------------------------------------------------------------------ *)
+(* 3 temperatures below 30, 2 in (30,45], 3 in (45,55], 1 above: with a minimum of 2 the last bin is sparse (drop 55),
+   then (45,+inf) holds 4, (30,45] 2, first 3: stop *)
+Example C18_ex_fit_bins :
+  fit_bins [10; 20; 25; 31; 40; 46; 50; 55; 70]%Q 2 [30; 45; 55]%Q = [30; 45]%Q /\
+  bin_counts [10; 20; 25; 31; 40; 46; 50; 55; 70]%Q [30; 45]%Q = [3; 2; 4]%nat.
+Proof. vm_compute. split; reflexivity. Qed.
+(* only when both outer bins are full are the inner ones looked at: (30,45] is empty, its right endpoint 45 goes *)
+Example C18_ex_fit_bins_middle :
+  fit_bins [10; 20; 46; 50; 60; 70]%Q 2 [30; 45; 55]%Q = [30; 55]%Q.
+Proof. vm_compute. reflexivity. Qed.
+(* the exception: too few temperatures altogether leave the single bin *)
+Example C18_ex_fit_bins_single_bin : fit_bins [50]%Q 20 [30; 45; 55; 65; 75; 90]%Q = [].
+Proof. vm_compute. reflexivity. Qed.
+Example C18_ex_fit_flags :
+  fit_flags [10; 20; 25; 31; 40; 46; 50; 55; 70]%Q [30; 45; 55]%Q 2 = [true; true; false].
+Proof. vm_compute. reflexivity. Qed.
+Example C18_ex_normalize : normalize [55; 30; 45; 30]%Q = [30; 45; 55]%Q.
+Proof. vm_compute. reflexivity. Qed.
+(* 13 positive residuals out of 20 is not above the default threshold (the double nearest 0.65), 14 are; an hour without
+   residuals is occupied *)
+Example C18_ex_occupancy_threshold :
+  let rows p := map (fun k => (5%Z, Nat.ltb k p)) (seq 0 20) in
+  occupied_flag default_occupancy_threshold (rows 13%nat) 5 = false /\
+  occupied_flag default_occupancy_threshold (rows 14%nat) 5 = true /\
+  occupied_flag default_occupancy_threshold (rows 14%nat) 6 = true /\
+  n_residuals (rows 14%nat) 6 = O.
+Proof. vm_compute. repeat split. Qed.
